@@ -1,3 +1,4 @@
+import Secp.Proofs.DriversFront
 import Secp.Proofs.DriversMisc
 import Secp.Proofs.DriversSign
 import Secp.Proofs.Ecdsa
@@ -115,5 +116,9 @@ end
 theorem pubKey_regenerated (d : Nat) :
     Secp.Gen.Drivers.pubKey d = ((toAffineJ (scalarBaseMultNC d)).1, (toAffineJ (scalarBaseMultNC d)).2.1) :=
   Secp.Proofs.DriversMisc.pubKey_regenerated d
+
+/-- the exported `Sign` is `signRFC6979` -/
+theorem sign_front (d : Nat) (h : Bytes) : Secp.Gen.Drivers.signGen d h = Secp.Gen.Drivers.signRFC6979 d h :=
+  Secp.Proofs.DriversFront.sign_front d h
 
 end Secp.Props.C01
